@@ -239,7 +239,11 @@ pub mod rust_log_ref_finder
                                         ));
 
                                         ref_kind = LogRefKind::StructuredPreExisting;
-                                        reference = match span.as_str().parse::<u32>()
+                                        /*
+                                         * The value's span runs up to the separator, so it may
+                                         * end with whitespace.
+                                         */
+                                        reference = match span.as_str().trim().parse::<u32>()
                                         {
                                             Err(_) => None,
                                             Ok(val) => Some(val),
